@@ -485,6 +485,16 @@ func c14Run(c *hx.Ctx, tier, unit string) {
 				}
 			}
 		})
+		scalingRun(c, "C14", "EFILoadOption.Unmarshal + Format", "device path of n end-of-instance nodes (7f 01 04 00)", 300000, func(n int) []byte {
+			b := dpgen.LoadOption{Attributes: 1, Description: "d"}.Bytes()
+			b = b[:len(b)-4]
+			b = append(b, bytes.Repeat([]byte{0x7f, 0x01, 4, 0}, n)...)
+			return append(b, 0x7f, 0xff, 4, 0)
+		}, func(in []byte) {
+			var o device.EFILoadOption
+			o.Unmarshal(bytes.NewBuffer(append([]byte{}, in...)))
+			device.ParseDevicePath(bytes.NewReader(in[10:]))
+		})
 		scalingRun(c, "C14", "ParseUtf16Var / Efistring", "string of n characters", 1<<16, func(n int) []byte {
 			b := make([]byte, 0, 2*n+2)
 			for i := 0; i < n; i++ {
